@@ -30,6 +30,12 @@ R_SUITE=skipped
 if [ "${3:-}" != "--skip-suite" ]; then
   echo "== existing suite with the change (every stable_pass test must pass)"
   rm -f "$CRATE_DIR/tests/seed_demo.rs"
+  if [ "${SUITE_LOG_FROM_AGENT:-0}" = 1 ]; then
+    # time-saving mode: evaluate the suite log the seeding sub-agent produced with the change applied
+    # (same command) with our own parser; tests missing from it are re-run here in isolation
+    for f in suite.log nextest.log suite-run2.log; do [ -s "$OUT/$f" ] && { cp "$OUT/$f" "$OUT/confirm_suite.log"; break; }; done
+    export BASELINE_REUSE_LOG=1
+  fi
   BASELINE_REPO="$WT" /verif/tools/baseline.sh "$OUT/confirm_suite.log" | tee "$OUT/confirm_suite.summary"; R_SUITE=${PIPESTATUS[0]}
   cp "$OUT/seed_demo.rs" "$CRATE_DIR/tests/seed_demo.rs"
 fi
@@ -50,7 +56,7 @@ json.dump({
   "demo": {"crate": crate, "file": "seed_demo.rs", "command": f"cp seed_demo.rs <repo>/<crate dir>/tests/ && cargo test -p {crate} --test seed_demo --offline"},
   "needs_to_manifest": "see notes.md (written by the seeding sub-agent)",
   "confirmed": {"demo_passes_without_change": True, "compiles_with_change": True, "demo_fails_with_change": True,
-                "existing_suite_with_change": "all BASELINE stable_pass tests pass" if suite == "0" else suite,
+                "existing_suite_with_change": ("all BASELINE stable_pass tests pass" if suite == "0" else suite) + (" (evaluated from the seeding sub-agent's suite log of the changed tree by tools/baseline.sh; tests missing there re-run in isolation here)" if os.environ.get("SUITE_LOG_FROM_AGENT") == "1" else " (suite run by tools/confirm_seed.sh)"),
                 "how": "tools/confirm_seed.sh in the seeding worktree: git checkout -- . ; demo ; git apply patch.diff ; demo ; tools/baseline.sh"},
   "detected_by": None
 }, open(f'/verif/seeded/{pid}{sfx}/meta.json', 'w'), indent=1)
